@@ -290,8 +290,9 @@ class EFloatFormat(EncodableFormat):
                     mbits = 0
                 case EFloatNanKind.MAX_VAL:
                     if self.pmax == 1:
+                        # no mantissa field: infinity is the code below NaN
                         ebits = bitmask(self.es) - 1
-                        mbits = 1
+                        mbits = 0
                     else:
                         ebits = bitmask(self.es)
                         mbits = bitmask(self.m) - 1
